@@ -16,15 +16,18 @@ RULE = ('rows = 16 scope-type declarations (none + every non-empty ordered subse
         'x do_raise x check allows/denies/depends on a role x rule overridden in the policy file or not (under its own name, or - for policies registered as renamed - under the deprecated old name) x registered as RuleDefault / DocumentedRuleDefault x rule by name / check object x '
         '4 credential representations (dict, RequestContext, to_policy_values mapping, that mapping with the `system` '
         'spelling added on top; the `system` spelling exists only for dicts and the last form); four more blocks flip '
-        'enforce_scope on a LIVING enforcer (on->off->on, off->on->off, ...) and re-run the table after each flip x role content irrelevant to the check. Non-trivial = scope types declared; distinct = distinct row. Stratum `overlap`: two requests with differently scoped tokens on one enforcer at the same time (second one runs at sampled line boundaries of the first, deterministic scheduler), each decided as its row says. Stratum `alias` (counted apart, counters reference_*): registered policies whose check string - registered default, or policy-file override (own name / deprecated old name) of a default saying the opposite - is a reference to ANOTHER registered policy declaring different scope types (none included, both directions): bare `rule:x`, under not / and / or, and through a chain of two references; referenced policy allows / denies / depends on a role, itself overridden in the file or not; by name and as a check object; the gate is that of the scope types the enforced policy itself declares, and when it lets the request through the decision is that of the check (what the check of the referenced policy decides; references inside a check are not gated).')
+        'enforce_scope on a LIVING enforcer (on->off->on, off->on->off, ...) and re-run the table after each flip x role content irrelevant to the check. Non-trivial = scope types declared; distinct = distinct row. Stratum `overlap`: two requests with differently scoped tokens on one enforcer at the same time (second one runs at sampled line boundaries of the first, deterministic scheduler), each decided as its row says. Stratum `alias` (counted apart, counters reference_*): registered policies whose check string - registered default, or policy-file override (own name / deprecated old name) of a default saying the opposite - is a reference to ANOTHER registered policy declaring different scope types (none included, both directions): bare `rule:x`, under not / and / or, and through a chain of two references; referenced policy allows / denies / depends on a role, itself overridden in the file or not; by name and as a check object; the gate is that of the scope types the enforced policy itself declares, and when it lets the request through the decision is that of the check (what the check of the referenced policy decides; references inside a check are not gated). Stratum `extras` (counted apart, counter rows_with_other_context_attributes): the table again - 8 scope-type declarations x the 12 credential combinations x enforce_scope x do_raise x check allows/denies/depends on a role x overridden or not x by name / check object - with credentials that carry, besides the scope-defining system scope / domain_id / project_id (varied independently as before), the OTHER attributes of a real request context in 7 profiles (project_domain_id, user_domain_id, user_id, user/project/domain names, is_admin / is_admin_project / read_only, service_* attributes, all of them together), in 5 representations: RequestContext, its to_policy_values() mapping, dict(that mapping), that dict with the `system` spelling added, and a hand-made dict holding only the keys that have a value (e.g. project_domain_id although domain_id is absent; legacy tenant / user keys); the token scope stays the function the statement gives of system scope / domain_id / project_id only, so every representation must decide as the row of the main table does.')
 ASSUMPTIONS = ['oslo.context RequestContext.to_policy_values is the conversion the statement means',
                'the check decision is made independent of roles by using @ / ! (registered default) and the opposite '
-               'constant as file override, so that a gate reading the wrong rule is visible']
+               'constant as file override, so that a gate reading the wrong rule is visible',
+               'attributes of the credentials other than system / system_scope / domain_id / project_id (project_domain_id, '
+               'user_domain_id, names, is_admin flags, service_* attributes) are neither "a system scope" nor "a domain id" '
+               'in the sense of the statement']
 LEVEL_TEXT = ('The statement quantifies over a finite product; all of it (about 2.3e4 rows) is executed against the real '
               'enforcer - complete for the stated table.')
 LEVEL_NOTE = 'trusted: the reference function (token scope derivation + membership) transcribed from the statement'
 PLAN = {'quick': dict(shards=4, wall=120), 'thorough': dict(shards=8, wall=300)}
-MIN = {'reference_rows': 20000, 'reference_gate_denied_rows': 3000, 'reference_rows_where_referenced_scope_disagrees': 3000, 'overlapping_evaluations': 200, 'option_flips_on_living_enforcer': 2, 'evaluations': 5000, 'gate_denied_rows': 500, 'allow_decisions': 500}
+MIN = {'rows_with_other_context_attributes': 30000, 'gate_denied_rows_with_other_context_attributes': 5000, 'project_token_rows_where_a_domain_named_attribute_would_flip_the_gate': 1500, 'reference_rows': 20000, 'reference_gate_denied_rows': 3000, 'reference_rows_where_referenced_scope_disagrees': 3000, 'overlapping_evaluations': 200, 'option_flips_on_living_enforcer': 2, 'evaluations': 5000, 'gate_denied_rows': 500, 'allow_decisions': 500}
 ANCHORS = ['oslo_policy.policy:Enforcer._enforce_scope', 'oslo_policy.policy:Enforcer.enforce',
            'oslo_policy.policy:Enforcer._map_context_attributes_into_creds']
 REQUIRED_ANCHORS = ['oslo_policy.policy:Enforcer.enforce']
@@ -313,6 +316,171 @@ def check_alias_pair(ctx, enforce_scope, where, oi, ti):
         tree.cleanup()
 
 
+# -- credentials that carry MORE than the three scope-defining attributes ---------------------------------------------
+# What a real request context carries besides system_scope / domain_id / project_id / roles (keyword arguments of
+# oslo_context.context.RequestContext).  None of them is "a system scope" or "a domain id" of the credentials: the token
+# scope stays the statement's function of system scope / domain_id / project_id only, whatever else is carried.
+EXTRA_PROFILES = [
+    ('keystone-token', dict(user_id='u', user_domain_id='ud', project_domain_id='pd', user_name='un', project_name='pn',
+                            user_domain_name='udn', project_domain_name='pdn')),
+    ('project-domain-id', dict(project_domain_id='pd')),
+    ('user-domain-id', dict(user_domain_id='ud')),
+    ('names', dict(user_id='u', user_name='un', project_name='pn', domain_name='dn', user_domain_name='udn',
+                   project_domain_name='pdn')),
+    ('admin-flags', dict(is_admin=True, is_admin_project=False, read_only=True, show_deleted=True)),
+    ('service-token', dict(service_token='st', service_user_id='su', service_user_name='sun', service_user_domain_id='sud',
+                           service_user_domain_name='sudn', service_project_id='sp', service_project_name='spn',
+                           service_project_domain_id='spd', service_project_domain_name='spdn',
+                           service_roles=['service', 'admin'])),
+    ('everything', dict(auth_token='tok', user_id='u', user_domain_id='ud', project_domain_id='pd', is_admin=True,
+                        is_admin_project=True, user_name='un', project_name='pn', domain_name='dn', user_domain_name='udn',
+                        project_domain_name='pdn', service_token='st', service_user_id='su', service_user_domain_id='sud',
+                        service_project_id='sp', service_project_domain_id='spd', service_roles=['service'],
+                        request_id='req-1', global_request_id='req-00000000-0000-0000-0000-000000000000',
+                        resource_uuid='res')),
+]
+# older spellings a service may still put into a hand-made credentials dict (hand-made dict form only)
+EXTRA_LEGACY_KEYS = {'names': {'tenant': 'pn', 'user': 'u'}, 'everything': {'tenant': 'pn', 'tenant_id': 't', 'user': 'u'}}
+# attributes that have "domain" in their name without being the domain id of the token
+DOMAIN_LIKE = ('project_domain_id', 'user_domain_id', 'domain_name', 'user_domain_name', 'project_domain_name',
+               'service_user_domain_id', 'service_project_domain_id')
+# scope-type declarations of the extra pass (orderings included; the complete set of orderings is the main table's)
+EXTRA_DECLS = [None, ['system'], ['domain'], ['project'], ['system', 'project'], ['project', 'domain'], ['domain', 'system'],
+               ['system', 'domain', 'project']]
+EXTRA_REPS = ('handmade', 'ctx', 'pv', 'dict', 'pv+system')
+
+
+def make_extra_creds(rep, sysmode, dom, proj, roles, extra):
+    """The five credential forms of the extra pass.  `handmade`: a plain dict holding only the keys that have a value (so
+    e.g. `project_domain_id` although `domain_id` is absent); `ctx`: a RequestContext; `pv`: the mapping its
+    to_policy_values() returns; `dict`: dict(that mapping) - the equivalent plain dict; `pv+system`: as in the main table."""
+    from oslo_context import context
+    kwargs = {k: (list(v) if isinstance(v, list) else v) for k, v in dict(EXTRA_PROFILES)[extra].items()}
+    if rep == 'handmade':
+        creds = {'roles': list(roles)}
+        if sysmode != 'none':
+            creds[sysmode] = 'all'
+        if dom:
+            creds['domain_id'] = 'd'
+        if proj:
+            creds['project_id'] = 'p'
+        creds.update(kwargs)
+        creds.update(EXTRA_LEGACY_KEYS.get(extra, {}))
+        return creds
+    if rep == 'pv+system':
+        c = context.RequestContext(system_scope=None, domain_id='d' if dom else None, project_id='p' if proj else None,
+                                   roles=list(roles), **kwargs)
+        m = dict(c.to_policy_values())
+        if sysmode != 'none':
+            m['system'] = 'all'
+        return m
+    c = context.RequestContext(system_scope='all' if sysmode != 'none' else None,
+                               domain_id='d' if dom else None, project_id='p' if proj else None,
+                               roles=list(roles), **kwargs)
+    if rep == 'ctx':
+        return c
+    return c.to_policy_values() if rep == 'pv' else dict(c.to_policy_values())
+
+
+def check_extras_block(ctx, enforce_scope, override):
+    """One enforcer; every row of a table like the main one, with credentials that carry - besides the scope-defining
+    system scope / domain_id / project_id, varied independently as before - the other attributes of a real request context.
+    Reference: the same function of system scope / domain_id / project_id as everywhere else."""
+    from oslo_policy import policy, _checks
+
+    class ScopedCheck(_checks.BaseCheck):
+        def __init__(self, res, st):
+            self.res = res
+            self.scope_types = st
+
+        def __str__(self):
+            return 'scoped-check'
+
+        def __call__(self, target, creds, enforcer, current_rule=None):
+            if self.res == 'role':
+                return 'admin' in [r.lower() for r in creds.get('roles', [])]
+            return self.res
+
+    tree = files.Tree(dirs=())
+    try:
+        conf = tree.conf(policy_dirs=[], enforce_scope=enforce_scope)
+        enf = policy.Enforcer(conf)
+        pols = []
+        filerules = {'unrelated': '@'}
+        for i, st in enumerate(EXTRA_DECLS):
+            for ri, res in enumerate((True, False, 'role')):
+                nm = 'xpol:%d_%s' % (i, res)
+                text = {True: '@', False: '!', 'role': 'role:admin'}[res]
+                opposite = {True: '!', False: '@', 'role': 'not role:admin'}[res]
+                kind = (i + ri) % 3
+                default_text = opposite if override else text
+                if kind == 1:
+                    enf.register_default(policy.DocumentedRuleDefault(nm, default_text, 'doc', [{'path': '/p', 'method': 'GET'}],
+                                                                      scope_types=st))
+                    if override:
+                        filerules[nm] = text
+                elif kind == 2 and override:
+                    dep = policy.DeprecatedRule('old:' + nm, default_text, deprecated_reason='r', deprecated_since='s')
+                    enf.register_default(policy.RuleDefault(nm, default_text, deprecated_rule=dep, scope_types=st))
+                    filerules['old:' + nm] = text
+                else:
+                    enf.register_default(policy.RuleDefault(nm, default_text, scope_types=st))
+                    if override:
+                        filerules[nm] = text
+                pols.append((nm, st, res, i * 3 + ri))
+        tree.write(os.path.basename(tree.main), filerules, 'json')
+        case = dict(extras=True, enforce_scope=enforce_scope, override=override)
+        row = None
+        for nm, st, res, idx in pols:
+            # role content is irrelevant to a constant check (the main table has that); both role sets where it matters
+            rolesets = ROLESETS if res == 'role' else [ROLESETS[idx % 2]]
+            for extra, attrs in EXTRA_PROFILES:
+                domain_like = any(attrs.get(k) for k in DOMAIN_LIKE)
+                for sysmode, dom, proj in itertools.product(['none', 'system', 'system_scope'], [0, 1], [0, 1]):
+                    tok = token_scope(sysmode, dom, proj)
+                    gate = bool(st) and enforce_scope and tok not in st
+                    for rep in EXTRA_REPS:
+                        if rep in ('ctx', 'pv', 'dict') and sysmode == 'system':
+                            continue
+                        if rep == 'pv+system' and sysmode == 'system_scope':
+                            continue
+                        for byobj in (False, True):
+                            for do_raise in (False, True):
+                                for roles in rolesets:
+                                    row = dict(scope_types=st, check_allows=res, system=sysmode, domain=dom, project=proj,
+                                               other_attributes=extra, rep=rep, by_object=byobj, do_raise=do_raise,
+                                               enforce_scope=enforce_scope, override=override, roles=roles)
+                                    want = reference(st, check_value(res, roles), sysmode, dom, proj, enforce_scope, do_raise)
+                                    creds = make_extra_creds(rep, sysmode, dom, proj, roles, extra)
+                                    rule = ScopedCheck(res, st) if byobj else nm
+                                    try:
+                                        got = enf.enforce(rule, {}, creds, do_raise=do_raise)
+                                        got = True if got is True else False if got is False else repr(got)
+                                    except Exception as e:
+                                        got = type(e).__name__
+                                    ctx.case(['extras', row], nontrivial=bool(st), stratum='extras')
+                                    ctx.count('rows_with_other_context_attributes')
+                                    if gate:
+                                        ctx.count('gate_denied_rows_with_other_context_attributes')
+                                    if st and enforce_scope and tok == 'project' and domain_like and ('domain' in st) != ('project' in st):
+                                        # a project token whose gate would come out differently if one of the attributes that
+                                        # merely mention a domain were taken for the token's domain id
+                                        ctx.count('project_token_rows_where_a_domain_named_attribute_would_flip_the_gate')
+                                    ctx.observe('outcomes_with_other_context_attributes', str(got))
+                                    if got != want:
+                                        if gate:
+                                            key = 'scope-mismatch-not-denied'
+                                        elif got == 'InvalidScope':
+                                            key = 'scope-gate-fires-without-mismatch'
+                                        else:
+                                            key = 'decision-differs-from-check'
+                                        ctx.violation(key, case, {'row': row, 'policy': nm, 'expected': want, 'observed': got,
+                                                                  'attributes_carried_besides_scope': attrs})
+        ctx.sample(row, 'extras')
+    finally:
+        tree.cleanup()
+
+
 OVERLAPS = {'quick': 12, 'thorough': 200}
 
 
@@ -396,6 +564,16 @@ def run(ctx):
             break
         check_alias_block(ctx, es, where)
     ctx.stratum('alias', exhaustive=done)
+    # credentials carrying the other attributes of a real request context besides the scope-defining ones
+    done = True
+    for i, (es, ov) in enumerate(itertools.product((True, False), (False, True))):
+        if not ctx.mine(len(blocks) + 2 * len(ALIAS_WHERE) + i):
+            continue
+        if ctx.expired():
+            done = False
+            break
+        check_extras_block(ctx, es, ov)
+    ctx.stratum('extras', exhaustive=done)
     ctx.release()
     # two overlapping requests, last (the line-level scheduler slows everything that runs after it is installed)
     from pv.mon import sched
@@ -414,4 +592,6 @@ def replay(ctx, case):
         return check_overlap(ctx, case)
     if case.get('alias'):
         return check_alias_block(ctx, case['enforce_scope'], case['where'], case.get('pair'))
+    if case.get('extras'):
+        return check_extras_block(ctx, case['enforce_scope'], case['override'])
     check_block(ctx, case['enforce_scope'], case['override'], tuple(case.get('flips', ())))
